@@ -163,6 +163,8 @@ func c08Shape(r *rand.Rand, maxD int) (defs string, used map[string]bool, nfn in
 	return sb.String(), used, nfn
 }
 
+type c08CtxKey struct{}
+
 func runC08(c *fw.Ctx) {
 	base := hx.NewStdEnv()
 	r := c.Rand("shapes")
@@ -180,6 +182,22 @@ func runC08(c *fw.Ctx) {
 				env = hx.NewStdEnv()
 			}
 			c08Install(env, mon)
+			// the evaluation context: none of these ever ends during the run; the loop must not care which it is
+			evalCtx := context.Background()
+			switch i % 3 {
+			case 1:
+				var cf context.CancelFunc
+				evalCtx, cf = context.WithTimeout(context.Background(), time.Hour)
+				defer cf()
+				used["ctx-with-deadline"] = true
+			case 2:
+				dctx, cf1 := context.WithDeadline(context.Background(), time.Now().Add(2*time.Hour))
+				defer cf1()
+				var cf2 context.CancelFunc
+				evalCtx, cf2 = context.WithCancel(context.WithValue(dctx, c08CtxKey{}, 1))
+				defer cf2()
+				used["ctx-child-of-deadline"] = true
+			}
 			if o := hx.EvalText(context.Background(), defs, env); o.Err != nil || o.Panicked {
 				c.Violate(fw.Violation{Key: "shape-rejected", What: fmt.Sprint("definitions failed: ", o.Err, o.PanicMsg)})
 				return
@@ -198,7 +216,7 @@ func runC08(c *fw.Ctx) {
 				mon.mu.Lock()
 				mon.base, mon.iters = nil, nil
 				mon.mu.Unlock()
-				o := hx.EvalText(context.Background(), fmt.Sprintf("(f0 %d)", nn), env)
+				o := hx.EvalText(evalCtx, fmt.Sprintf("(f0 %d)", nn), env)
 				if o.Panicked || o.Err != nil {
 					c.Violate(fw.Violation{Key: "loop-failed", What: fmt.Sprintf("(f0 %d) failed: %v %s", nn, o.Err, o.PanicMsg)})
 					return
@@ -264,7 +282,7 @@ func runC08(c *fw.Ctx) {
 					iters = 30000
 				}
 				c.Count("long_run_iterations", iters)
-				go func() { done <- hx.EvalText(context.Background(), fmt.Sprintf("(f0 %d)", iters-iters%nfn), env) }()
+				go func() { done <- hx.EvalText(evalCtx, fmt.Sprintf("(f0 %d)", iters-iters%nfn), env) }()
 				o := <-done
 				debug.SetMaxStack(old)
 				if o.Panicked || o.Err != nil {
@@ -287,10 +305,20 @@ func c08Key(used map[string]bool) string {
 			l = append(l, k)
 		}
 	}
-	if len(l) > 3 {
-		return fmt.Sprintf("%d-constructs", len(l))
+	pre := ""
+	if used["ctx-with-deadline"] || used["ctx-child-of-deadline"] {
+		pre = "deadline-ctx:"
 	}
-	return strings.Join(l, "+")
+	for _, k := range []string{"def-via-macro", "def-via-eval-of-list", "def-via-read-string"} {
+		if used[k] {
+			pre += k + ":"
+			break
+		}
+	}
+	if len(l) > 3 {
+		return pre + fmt.Sprintf("%d-constructs", len(l))
+	}
+	return pre + strings.Join(l, "+")
 }
 
 func init() {
